@@ -212,12 +212,12 @@ def _consumed_after_initial(F, p, stem):
     return False
 
 
-def check_ortho_all(ctx, F):
+def check_ortho_all(ctx, F, only=None):
     for fid, b in F.bodies.items():
         if not b["inst"] or b.get("cls") != "OS_" or F.spec(b.get("tid")) != "nonlast":
             continue
         name = b["name"]
-        if not name.startswith("wide") or name in SKIP:
+        if not name.startswith("wide") or name in SKIP or (only and name not in only):
             continue
         stem = name[4:]
         site = "OS_<nonlast>::" + name + ("/prongs" if any(p["n"] == "prongs" for p in b.get("params", [])) else "")
@@ -254,6 +254,8 @@ def check_ortho_all(ctx, F):
         ctx.instance("C01.ortho-all", site, {"function": site, "loc": F.floc(fid), "filtered_by_prongs": filtered})
         if bad:
             ctx.violation("C01.ortho-all", site, "%s (%s)" % (site, F.floc(fid)), bad, {})
+    if only:
+        return
     # O_: head and sub-states unconditionally for lifecycle members
     for fid, b in insts(F, "O_", {"deepEnter", "deepReenter", "deepExit"}):
         site = "O_::" + b["name"]
